@@ -103,6 +103,9 @@ func (e *FuncEnc) declareEvent(name string, sorts []string) string {
 	}
 	e.D.Axiom("nResp:"+fn, fmt.Sprintf("(forall ((t Trace) %s) (! (= (nResp (tr_cons t %s)) (+ (nResp t) %s)) :pattern ((tr_cons t %s))))", strings.Join(bs, " "), ev, inc, ev))
 	e.declareProjections(name, fn, bs, as, sorts, ev)
+	if !strings.HasPrefix(name, "jw_") {
+		e.jsonNeutral(fn, bs, ev)
+	}
 	e.D.UF("nClose", []string{"Trace"}, "Int")
 	cinc := "0"
 	if strings.HasSuffix(strings.ReplaceAll(name, "emitted.", ""), "io.ReadCloser.Close") || strings.HasSuffix(name, "io.Closer.Close") {
@@ -183,6 +186,9 @@ func (e *FuncEnc) encodeCall(in ssa.Instruction, c *ssa.CallCommon, res ssa.Valu
 		if e.W != nil && e.W.InvokeSummary != nil && len(rts) == 0 && e.W.InvokeSummary(e, c) {
 			return
 		}
+		if e.W != nil && e.W.JSONViews && jsonInvoke(e, in, c, res) {
+			return
+		}
 		e.dynamicCall(in, name, recv, "Iface", c.Args, args, rts, res)
 		return
 	}
@@ -196,6 +202,12 @@ func (e *FuncEnc) encodeCall(in ssa.Instruction, c *ssa.CallCommon, res ssa.Valu
 	case *ssa.MakeClosure:
 		e.staticCall(in, f.Fn.(*ssa.Function), f.Bindings, c.Args, args, rts, res)
 		return
+	}
+	if e.W != nil && e.W.InlineClosures {
+		if mc := e.resolveClosure(c.Value, 0); mc != nil {
+			e.staticCall(in, mc.Fn.(*ssa.Function), mc.Bindings, c.Args, args, rts, res)
+			return
+		}
 	}
 	// call of a func value
 	fv := e.v(c.Value)
@@ -289,6 +301,11 @@ func (e *FuncEnc) staticCall(in ssa.Instruction, f *ssa.Function, bindings []ssa
 			}
 		}
 		e.inlineCall(f, bindings, args, res)
+		return
+	}
+	envOnly := c != nil && c.Options["env"] == "true" && len(c.Requires) == 0 && len(c.Ensures) == 0 && c.RetHook == nil && c.PostHook == nil
+	if e.W != nil && e.W.InlineClosures && (c == nil || envOnly) && f.Parent() != nil && bindings != nil && isModuleFn(e.W, f) && dagInlinable(f) && e.inlineDepth < 4 {
+		e.inlineDAG(in, f, bindings, argVals, args, res)
 		return
 	}
 	if c != nil {
